@@ -42,10 +42,13 @@ func bitsOf(a hlref.Access) []int {
 // via "setuser": the creator's account starts out holding everything the request asks for, is logged in twice, and an
 // administrator's set-user then reduces it to creator while both sessions are connected; the later session creates.
 func c06create(rt *rapid.T, creator, requested hlref.Access, path string, via ...string) (created bool) {
-	creator = creator.Defined() // what an account file can hold
-	creator.Set(hlref.PrivCreateUser)
 	setuser := len(via) > 0 && via[0] == "setuser"
-	initial := creator
+	if !setuser {
+		creator = creator.Defined() // what an account file can hold
+	}
+	// (privileges given by an administrator's set-user are the 64 bits as sent: also bits that name no privilege)
+	creator.Set(hlref.PrivCreateUser)
+	initial := creator.Defined()
 	if setuser {
 		for _, b := range bitsOf(requested.Defined()) {
 			initial.Set(b)
@@ -196,8 +199,12 @@ func TestC06Create(t *testing.T) {
 	rapid.Check(t, func(rt *rapid.T) {
 		creator := genAccess(rt, "creator")
 		path := rapid.SampledFrom([]string{"new-user", "update-user"}).Draw(rt, "path")
+		via := rapid.SampledFrom([]string{"", "", "setuser"}).Draw(rt, "via")
 		var req hlref.Access
 		cd := creator.Defined()
+		if via == "setuser" {
+			cd = creator
+		}
 		cd.Set(hlref.PrivCreateUser)
 		mode := rapid.SampledFrom([]string{"random", "subset", "subset+1", "equal", "empty", "full", "superset-undefined"}).Draw(rt, "mode")
 		switch mode {
@@ -220,7 +227,6 @@ func TestC06Create(t *testing.T) {
 			req = cd
 			req.Set(rapid.SampledFrom([]int{19, 41, 42, 47, 48, 55, 56, 63}).Draw(rt, "undef"))
 		}
-		via := rapid.SampledFrom([]string{"", "", "setuser"}).Draw(rt, "via")
 		created := c06create(rt, creator, req, path, via)
 		lab := "refused"
 		if created {
